@@ -70,6 +70,8 @@ type H struct {
 	brokerInit refmqtt.Snapshot
 	// requests of synthetic records (sessions positioned at the identifier wrap)
 	extraReqs []*Req
+	// exactly-once identifiers whose ownership was taken before this generation (C04)
+	inheritedOwned map[uint16]bool
 }
 
 func newH(rt *rapid.T, prop string, o sim.Options) *H {
